@@ -56,6 +56,9 @@ def n0_n1():
     # three-body reactions among species with long names: one term of the emitted statements is wider than a source line
     out.append(Case("N1-long-names", {"reactions": [rx(["CH3CH2OCH2CH2OH", "CH3OCH2CH2OCH3", "HOCH2CH2OCH2CH2OH"], ["CH3CH2OCH2CH2OH", "CH3OCH2CH2OCH3+", "HOCH2CH2OCH2CH2OH", "e-"]),
                                                     rx(["CH3OCH2CH2OCH3+", "e-", "HOCH2CH2OCH2CH2OH"], ["CH3OCH2CH2OCH3", "HOCH2CH2OCH2CH2OH"]), rx(["CH3CH2OCH2CH2OH", "CH3CH2OCH2CH2OH", "CH3OCH2CH2OCH3+"], ["HOCH2CH2OCH2CH2OH", "CH3OCH2CH2OCH3+"])], "network": {}}))
+    # a real species whose name differs from a pseudo element only by case (chromium Cr / cosmic ray CR; Xe would do for X...)
+    out.append(Case("N1-pseudo-lookalike", {"reactions": [rx(["Cr", "H+"], ["Cr+", "H"]), rx(["Cr+", "e-"], ["Cr"]), rx(["H2", "CR"], ["H", "H"], t=101), rx(["Cr", "CR"], ["Cr+", "e-"], t=101), rx(["Cr", "Cr", "H"], ["Cr", "Cr+", "H", "e-"])],
+                                            "network": {"elements": "e,E,H,D,He,C,N,O,F,Na,Mg,Al,Si,P,S,Cl,Ar,Ca,Cr,Fe,Ni".split(","), "pseudo_elements": "CR,CRP,XRAY,Photon,PHOTON,CRPHOT,X,M,p,o,m,c-,l-,\\*,g".split(",")}}))
     out.append(Case("N1-pseudo", {"reactions": [rx(["H2", "CR"], ["H", "H"], t=101), rx(["CO", "PHOTON"], ["C", "O"], t=102, c=2.0), rx(["H", "CRPHOT"], ["H+", "e-"], t=120, c=1.0), rx(["H", "Photon"], ["H+", "E"], t=102)], "network": {}}))
     return out
 
